@@ -389,7 +389,7 @@ def cond_expr(env, depth=2):
     nc = nonconst_vec_leaf(env)
     opts = [b, b]
     if nc is not None:
-        cmp_ = st.tuples(st.just("cmp"), st.sampled_from(["==", "!=", "<", "<=", ">", ">="]), nc,
+        cmp_ = st.tuples(st.just("cmp"), st.sampled_from(["==", "!=", "!=", "<", "<=", "<=", ">", ">=", ">="]), nc,
                          st.one_of(vec_leaf(env), st.integers(0, (1 << env.W) - 1).map(lambda v: ["const", v]))).map(list)
         opts += [cmp_, cmp_]
     leaf = st.one_of(opts)
@@ -582,7 +582,7 @@ def stmt(draw, env, depth, loop=False, in_sub=False):
     if k == "await":
         return {"k": "await", "c": draw(cond_expr(env, 1))}
     if k == "await_true":
-        return {"k": "await", "c": draw(st.sampled_from(["true", "true", "true", "false"]))}
+        return {"k": "await", "c": draw(st.sampled_from(["true"] * 7 + ["false"]))}
     if k == "while":
         c = draw(st.one_of(st.just("true"), cond_expr(env, 1), cond_expr(env, 1)))
         body = draw(block(env, depth - 1, loop=True, in_sub=in_sub))
